@@ -307,26 +307,24 @@ def shipped_jobs():
 
 # ---------------------------------------------------------------- tie of the proved fragment model (XCodegenExpr.cg) to the real xcmp
 def frag_expr(rng, depth):
-    """an expression of the proved fragment: numbers, globals g0/g1, + and - with simple right operands"""
+    """an expression of the proved fragment: numbers, globals g0/g1, + and - nested on both sides (right operands
+    that are constants or variables go straight to breg; others are spilled to frame temporaries)"""
     def const():
         v = rng.choice([0, 1, 2, 3, 7, 15, 16, 255, 256, 4095, 4096, 65535, 65534, 1000])
-        return ('num', v) if rng.random() < 0.8 else ('neg', ('num', v))
+        return ('num', v) if rng.random() < 0.8 else ('num', (-v) % (1 << 32))
     def ctree(d):
         if d <= 0 or rng.random() < 0.5:
-            c = const()
-            return c if c[0] == 'num' else ('num', (-c[1][1]) % (1 << 32))
+            return const()
         return ('bin', rng.choice(['+', '-']), ctree(d - 1), ctree(d - 1))
-    def right():
+    r = rng.random()
+    if depth <= 0 or r < 0.15:
         r = rng.random()
-        if r < 0.4:
+        if r < 0.45:
             return ('var', rng.choice(['g0', 'g1']))
-        if r < 0.75:
-            c = const()
-            return c if c[0] == 'num' else ('num', (-c[1][1]) % (1 << 32))
+        if r < 0.8:
+            return const()
         return ctree(2)
-    if depth <= 0 or rng.random() < 0.15:
-        return right()
-    return ('bin', rng.choice(['+', '-']), frag_expr(rng, depth - 1), right())
+    return ('bin', rng.choice(['+', '-']), frag_expr(rng, depth - 1), frag_expr(rng, depth - 1 if rng.random() < 0.45 else 0))
 
 
 def listing_instrs(text):
@@ -363,20 +361,22 @@ def fragment_tie(ck, tools, scr, n):
         amap = None
         if ins is not None:
             try:
-                k = next(j for j, x in enumerate(ins) if x[1] == 'PROC main' or (x[0] == '' and x[1].endswith('PROC main')))
+                k = next(j for j, x in enumerate(ins) if x == ('PROC', 'main'))
             except StopIteration:
                 k = None
             if k is not None:
                 st = [j for j in range(k, len(ins)) if ins[j][0] == 'STAM' and ins[j][1] != 1]
                 svc = [j for j in range(k, len(ins)) if ins[j][0] == 'SVC']
                 if len(st) >= 2 and svc and ins[svc[0] - 3:svc[0]] == [('LDBM', 1), ('STAI', 2), ('LDAC', 0)]:
-                    amap = {'g0': ins[st[0]][1], 'g1': ins[st[1]][1]}
+                    amap = {'g0': ins[st[0]][1], 'g1': ins[st[1]][1], 'size': 0}
+                    if ins[k + 1:k + 3] == [('LDBM', 1), ('STAI', 0)] and ins[k + 3][0] == 'LDAC' and ins[k + 4] == ('ADD', None):
+                        amap['size'] = -ins[k + 3][1]          # prologue: LDAC -size; OPR ADD; STAM 1
                     code = [x for x in ins[st[1] + 1:svc[0] - 3] if x[0] != '']
         real.append((src, code, amap))
         if amap is None:
-            lines.append('g0=2 g1=3 | ' + xcommon.sx_expr(e))
+            lines.append('size=0 g0=2 g1=3 | ' + xcommon.sx_expr(e))
         else:
-            lines.append('g0=%d g1=%d | %s' % (amap['g0'], amap['g1'], xcommon.sx_expr(e)))
+            lines.append('size=%d g0=%d g1=%d | %s' % (amap['size'], amap['g0'], amap['g1'], xcommon.sx_expr(e)))
     rc, out, err = xcommon._run([tools.hv, 'xcg'], d, ('\n'.join(lines) + '\n').encode(), 300)
     model = out.decode().strip().split('\n')
     if rc != 0 or len(model) != len(exprs):
@@ -443,7 +443,8 @@ def main():
     ck.cov['trusted_base'] = ['Coq 8.16.1 kernel', 'XSem.v as a reading of the X definition (xhexnotes.pdf) -- spec', 'Isa.v as a reading of hexb.pdf -- spec',
                               'ExtrOcamlBasic extraction + OCaml 4.13 driver ocaml/xdrv.ml (s-expression reader, result printer)',
                               'tools/xcommon.py pretty-printer X AST -> X text (cross-checked on every program by re-parsing with tools/xparse.py)']
-    ck.assumptions = ['well-defined = XSem.run_fuel says Behaviour (budgets %d statements, depth %d for generated programs; more fuel never changes a Behaviour: run_fuel_monotone)' % (STEPS, DEPTH),
+    ck.assumptions = ['well-defined = the extracted XSem.run_fuel says Behaviour with budgets of %d statements and call depth %d for generated programs (XSem.run allows 2000000 and 2000); '
+                      'proved: a Behaviour does not change when the recursion fuel grows (run_fuel_monotone); NOT proved, assumed: nor when the statement budget or the depth bound grows' % (STEPS, DEPTH),
                       'order-open evaluation is excluded conservatively by footprints (XSem.v header); ill-defined programs are counted per reason and dropped',
                       'file streams (>= 256) are not generated; console only']
     if os.path.exists(os.path.join(vlib.COQ, 'Properties_%s.v' % PID)):
@@ -463,7 +464,7 @@ def main():
         pool = multiprocessing.Pool(2, _init, (tools, scr, opts))
     else:
         pool = multiprocessing.Pool(nproc, _init, (tools, scr, opts))
-        n = 1500 if not ck.thorough() else 40000
+        n = 1500 if not ck.thorough() else 30000
         base = ck.rng.randrange(1 << 30)
         fragment_tie(ck, tools, scr, 150 if not ck.thorough() else 1500)
         jobs = corpus_jobs(PID) + directed_jobs() + shipped_jobs() + [('gen', base + i) for i in range(n)]
